@@ -3,6 +3,10 @@
 // thread do not influence each other.
 //
 // H1: evaluation budget / cancellation point (`tick`).
+// H3: scope registry. A closure stored in a variable of the scope it captures forms an `Rc` cycle
+//     that is never freed; harmless for one script, but a simulator that runs millions of sessions
+//     in one process needs to release them. Every child scope is registered (weakly) and
+//     `release_envs` empties the variables of those still alive, which breaks the cycles.
 // H2: hasher seam. `HashMap` below replaces `std::collections::HashMap` in the interpreter so that
 //     iteration order and bucket choice come from a seed the simulator owns instead of from
 //     `RandomState`; `key_hash_mode` lets the simulator degrade the hash of dictionary keys
@@ -200,4 +204,35 @@ impl Hasher for TwoBitHasher {
     fn finish(&self) -> u64 {
         mix(self.0)
     }
+}
+
+// ---------------------------------------------------------------------------------------------
+// H3
+
+#[cfg(not(feature = "parallel"))]
+thread_local! {
+    static ENVS: std::cell::RefCell<Vec<std::rc::Weak<std::cell::RefCell<crate::core::Env>>>> =
+        std::cell::RefCell::new(Vec::new());
+}
+
+#[cfg(not(feature = "parallel"))]
+pub fn register_env(e: &std::rc::Rc<std::cell::RefCell<crate::core::Env>>) {
+    ENVS.with(|v| v.borrow_mut().push(std::rc::Rc::downgrade(e)));
+}
+
+/// Empty the variables of every scope created on this thread since the last call that is still
+/// alive (the session that owned them is over). Returns how many were still alive.
+#[cfg(not(feature = "parallel"))]
+pub fn release_envs() -> usize {
+    let envs = ENVS.with(|v| std::mem::take(&mut *v.borrow_mut()));
+    let mut alive = 0;
+    for w in envs {
+        if let Some(e) = w.upgrade() {
+            alive += 1;
+            if let Ok(mut b) = e.try_borrow_mut() {
+                b.vars.clear();
+            }
+        }
+    }
+    alive
 }
